@@ -155,6 +155,15 @@ CHECKS = {
                 tech="repository-side contract conditions (AST scans + SMT obligations); dependency contract assumed, validated boundedly",
                 note="Level 'other': the isomorphism itself is an ASSUMED contract on pickle/copy, validated only boundedly (all trees "
                      "<= 4/5 nodes x 5 class mixes x every entry node x every protocol and deepcopy)."),
+    "C11": dict(cat="proof", design="3/C11",
+                text="Delegation equalities proved from the real bodies of JsonExporter._export/export/write and JsonImporter.__import/"
+                     "import_/read: exactly one export of the node by the supplied dict exporter (else a default DictExporter()), "
+                     "maxlevel forwarded iff not None and no other state touched; exactly one json.dumps / json.dump with that "
+                     "dictionary, the file handle and exactly the stored keyword options; json.loads / json.load with the stored "
+                     "options feed the shared __import, whose tree is returned.",
+                tech="contract-based deductive verification on an ordered effect log (relative to an assumed contract on json)",
+                note="Proof RELATIVE to the assumed dependency contract json.loads(json.dumps(d)) == d for JSON-representable d, which is "
+                     "validated only boundedly; the end-to-end round trip additionally rests on C10."),
 }
 REASONS = {}
 
